@@ -234,7 +234,7 @@ func checkC05(c *Ctx) error {
 		if b.may {
 			cl = c05May
 		}
-		form := []string{"function", "method", "closure"}[i%3]
+		form := []string{"function", "method", "closure", "nested-closure"}[i%4]
 		build := func(body []gen.Stmt) *gen.Program {
 			p := &gen.Program{Types: []*gen.Type{enum, recv}, Features: map[string]bool{}}
 			params := []gen.Param{{Name: "a", T: gen.I32}, {Name: "b", T: gen.I32}, {Name: "e", T: enum}}
@@ -253,6 +253,18 @@ func checkC05(c *Ctx) error {
 				pre = append(pre, &gen.Let{Name: "bx", T: recv, Init: &gen.StructLit{T: recv, Vals: []gen.Expr{g.lit(1)}}, Annot: true})
 				callOf = func(a, b int64, ev int) gen.Expr {
 					return &gen.MCall{Recv: &gen.Var{Name: "bx", T: recv}, M: f, Args: []gen.Expr{g.lit(a), g.lit(b), &gen.EnumLit{T: enum, V: ev}}}
+				}
+			case "nested-closure":
+				// the body under test is a function literal created inside another function literal
+				inner := &gen.Closure{Params: params, Ret: gen.I32, Body: body}
+				oa, ob, oe := &gen.Var{Name: "oa", T: gen.I32}, &gen.Var{Name: "ob", T: gen.I32}, &gen.Var{Name: "oe", T: enum}
+				outer := &gen.Closure{Params: []gen.Param{{Name: "oa", T: gen.I32}, {Name: "ob", T: gen.I32}, {Name: "oe", T: enum}}, Ret: gen.I32, Body: []gen.Stmt{
+					&gen.LetClosure{Name: "f", C: inner},
+					&gen.Return{X: &gen.ClosureCall{Name: "f", C: inner, Args: []gen.Expr{oa, ob, oe}}},
+				}}
+				pre = append(pre, &gen.LetClosure{Name: "g", C: outer})
+				callOf = func(a, b int64, ev int) gen.Expr {
+					return &gen.ClosureCall{Name: "g", C: outer, Args: []gen.Expr{g.lit(a), g.lit(b), &gen.EnumLit{T: enum, V: ev}}}
 				}
 			default:
 				cl := &gen.Closure{Params: params, Ret: gen.I32, Body: body}
